@@ -1,5 +1,6 @@
 import Pkgcore.Spec.C25
 import Pkgcore.Proofs.C28
+import Pkgcore.Proofs.C24
 /-! # C25 helper lemmas -/
 namespace Pkgcore.C25
 open Pkgcore.C24 Pkgcore.C25.Spec
@@ -479,6 +480,162 @@ theorem specRest_share (dev : Nat) (S : List Obj) (reps : List (Key × Nat × Na
         | fifo l a => simp only [specRest]; rw [inoAt_cons_ne _ _ _ hnx, inoAt_cons_ne _ _ _ hny]; exact ih _ _ _ hlocs.2 hx hy
         | dev l a c mj mn => simp only [specRest]; rw [inoAt_cons_ne _ _ _ hnx, inoAt_cons_ne _ _ _ hny]; exact ih _ _ _ hlocs.2 hx hy
 
+/-! ## the converse: files of different classes never share an inode -/
+
+/-- bookkeeping of the representative table: every stored inode is below the counter and distinct keys hold
+distinct inodes -/
+structure RepsOK (reps : List (Key × Nat × Nat)) (next : Nat) : Prop where
+  lt : ∀ k i d, reps.lookup k = some (i, d) → i < next
+  inj : ∀ k k' i d d', reps.lookup k = some (i, d) → reps.lookup k' = some (i, d') → k = k'
+
+theorem repsOK_put (reps : List (Key × Nat × Nat)) (next : Nat) (k : Key) (d : Nat) (h : RepsOK reps next) :
+    RepsOK (repPut reps k (next, d)) (next + 1) := by
+  refine ⟨?_, ?_⟩
+  · intro k' i d' hl
+    rw [lookup_repPut] at hl
+    split at hl
+    · cases hl; exact Nat.lt_succ_self _
+    · exact Nat.lt_succ_of_lt (h.lt k' i d' hl)
+  · intro k1 k2 i d1 d2 h1 h2
+    rw [lookup_repPut] at h1 h2
+    split at h1 <;> split at h2
+    · rename_i e1 e2; rw [e1, e2]
+    · cases h1; exact absurd (h.lt _ _ _ h2) (Nat.lt_irrefl _)
+    · cases h2; exact absurd (h.lt _ _ _ h1) (Nat.lt_irrefl _)
+    · exact h.inj _ _ _ _ _ h1 h2
+
+/-- where the inode of a file of the list comes from: the table (through the file's own key) or the counter -/
+theorem specRest_ino_src (dev : Nat) (S : List Obj) (reps : List (Key × Nat × Nat)) (next nsrc : Nat)
+    (hlocs : (S.map Obj.loc).Nodup) (y : File) (hy : .file y ∈ S) :
+    ∃ i, inoAt (specRest dev S reps next nsrc) y.loc = some i ∧
+      ((keySome y = true ∧ ∃ d, reps.lookup (keyOf y) = some (i, d)) ∨ next ≤ i) := by
+  induction S generalizing reps next nsrc with
+  | nil => simp at hy
+  | cons o rest ih =>
+    simp only [List.map_cons, List.nodup_cons] at hlocs
+    simp only [List.mem_cons] at hy
+    have hyne : Obj.file y ∈ rest → o.loc ≠ y.loc := fun hyr e =>
+      hlocs.1 (by rw [e]; exact List.mem_map_of_mem (f := Obj.loc) hyr)
+    have tail : ∀ (hne : o ≠ .file y), Obj.file y ∈ rest := fun hne => by
+      rcases hy with hy | hy
+      · exact absurd hy.symm hne
+      · exact hy
+    cases o with
+    | file z =>
+      simp only [specRest]
+      split
+      · rename_i i d hl hks
+        rcases hy with hy | hy
+        · cases hy
+          exact ⟨i, by simp [inoAt, Obj.loc, inodeOf], Or.inl ⟨hks, d, hl⟩⟩
+        · rw [inoAt_cons_ne _ _ _ (by exact hyne hy)]
+          exact ih reps next (nsrc + 1) hlocs.2 hy
+      · rcases hy with hy | hy
+        · cases hy
+          exact ⟨next, by simp [inoAt, Obj.loc, inodeOf], Or.inr (Nat.le_refl _)⟩
+        · rw [inoAt_cons_ne _ _ _ (by exact hyne hy)]
+          obtain ⟨i, hi, hsrc⟩ := ih (repPut reps (keyOf z) (next, z.data)) (next + 1) (nsrc + 1) hlocs.2 hy
+          refine ⟨i, hi, ?_⟩
+          rcases hsrc with ⟨hks, d, hl⟩ | hge
+          · rw [lookup_repPut] at hl
+            split at hl
+            · cases hl; exact Or.inr (Nat.le_refl _)
+            · exact Or.inl ⟨hks, d, hl⟩
+          · exact Or.inr (Nat.le_of_succ_le hge)
+    | dir l a =>
+      have hyr := tail (by intro e; cases e)
+      simp only [specRest]; rw [inoAt_cons_ne _ _ _ (by exact hyne hyr)]; exact ih reps next nsrc hlocs.2 hyr
+    | sym l t a =>
+      have hyr := tail (by intro e; cases e)
+      simp only [specRest]; rw [inoAt_cons_ne _ _ _ (by exact hyne hyr)]; exact ih reps next nsrc hlocs.2 hyr
+    | fifo l a =>
+      have hyr := tail (by intro e; cases e)
+      simp only [specRest]; rw [inoAt_cons_ne _ _ _ (by exact hyne hyr)]; exact ih reps next nsrc hlocs.2 hyr
+    | dev l a c mj mn =>
+      have hyr := tail (by intro e; cases e)
+      simp only [specRest]; rw [inoAt_cons_ne _ _ _ (by exact hyne hyr)]; exact ih reps next nsrc hlocs.2 hyr
+
+/-- two different names that come back with one inode were of one (dev, inode) class -/
+theorem specRest_share_conv (dev : Nat) (S : List Obj) (reps : List (Key × Nat × Nat)) (next nsrc : Nat)
+    (hok : RepsOK reps next) (hlocs : (S.map Obj.loc).Nodup) (x y : File) (hx : .file x ∈ S) (hy : .file y ∈ S)
+    (hne : x.loc ≠ y.loc)
+    (h : inoAt (specRest dev S reps next nsrc) x.loc = inoAt (specRest dev S reps next nsrc) y.loc) :
+    keyOf x = keyOf y ∧ keySome x = true := by
+  induction S generalizing reps next nsrc with
+  | nil => simp at hx
+  | cons o rest ih =>
+    have hlocs' := hlocs
+    simp only [List.map_cons, List.nodup_cons] at hlocs
+    -- the head is one of the two names
+    have headcase : ∀ (z w : File), o = .file z → .file w ∈ rest →
+        inoAt (specRest dev (.file z :: rest) reps next nsrc) z.loc
+          = inoAt (specRest dev (.file z :: rest) reps next nsrc) w.loc →
+        keyOf z = keyOf w ∧ keySome z = true ∧ keySome w = true := by
+      intro z w ho hw hzw
+      subst ho
+      have hwne : z.loc ≠ w.loc := fun e =>
+        hlocs.1 (by simp only [Obj.loc]; rw [e]; exact List.mem_map_of_mem (f := Obj.loc) hw)
+      simp only [specRest] at hzw
+      split at hzw
+      · rename_i i d hl hks
+        have hz : inoAt (Obj.file ⟨z.loc, z.a, some dev, some i, d, nsrc⟩ :: specRest dev rest reps next (nsrc + 1)) z.loc = some i := by
+          simp [inoAt, Obj.loc, inodeOf]
+        rw [hz, inoAt_cons_ne _ _ w.loc (by exact hwne)] at hzw
+        obtain ⟨i', hi', hsrc⟩ := specRest_ino_src dev rest reps next (nsrc + 1) hlocs.2 w hw
+        rw [hi'] at hzw
+        cases hzw
+        rcases hsrc with ⟨hkw, d', hl'⟩ | hge
+        · exact ⟨hok.inj _ _ _ _ _ hl hl', hks, hkw⟩
+        · exact absurd (hok.lt _ _ _ hl) (Nat.not_lt.mpr hge)
+      · have hz : inoAt (Obj.file ⟨z.loc, z.a, some dev, some next, z.data, nsrc⟩
+            :: specRest dev rest (repPut reps (keyOf z) (next, z.data)) (next + 1) (nsrc + 1)) z.loc = some next := by
+          simp [inoAt, Obj.loc, inodeOf]
+        rw [hz, inoAt_cons_ne _ _ w.loc (by exact hwne)] at hzw
+        obtain ⟨i', hi', hsrc⟩ := specRest_ino_src dev rest (repPut reps (keyOf z) (next, z.data)) (next + 1) (nsrc + 1) hlocs.2 w hw
+        rw [hi'] at hzw
+        cases hzw
+        rcases hsrc with ⟨hkw, d', hl'⟩ | hge
+        · rw [lookup_repPut] at hl'
+          split at hl'
+          · rename_i hk
+            exact ⟨hk.symm, by rw [keySome_of_key z w hk.symm]; exact hkw, hkw⟩
+          · exact absurd (hok.lt _ _ _ hl') (Nat.lt_irrefl _)
+        · exact absurd hge (Nat.not_succ_le_self _)
+    simp only [List.mem_cons] at hx hy
+    rcases hx with hx | hx
+    · rcases hy with hy | hy
+      · rw [← hx] at hy; cases hy; exact absurd rfl hne
+      · subst hx
+        have := headcase x y rfl hy h
+        exact ⟨this.1, this.2.1⟩
+    · rcases hy with hy | hy
+      · subst hy
+        have := headcase y x rfl hx h.symm
+        exact ⟨this.1.symm, this.2.2⟩
+      · have hnx : o.loc ≠ x.loc := fun e => hlocs.1 (by rw [e]; exact List.mem_map_of_mem (f := Obj.loc) hx)
+        have hny : o.loc ≠ y.loc := fun e => hlocs.1 (by rw [e]; exact List.mem_map_of_mem (f := Obj.loc) hy)
+        cases o with
+        | file z =>
+          simp only [specRest] at h
+          simp only [Obj.loc] at hnx hny
+          split at h
+          · rw [inoAt_cons_ne _ _ _ (by exact hnx), inoAt_cons_ne _ _ _ (by exact hny)] at h
+            exact ih _ _ _ hok hlocs.2 hx hy h
+          · rw [inoAt_cons_ne _ _ _ (by exact hnx), inoAt_cons_ne _ _ _ (by exact hny)] at h
+            exact ih _ _ _ (repsOK_put reps next (keyOf z) z.data hok) hlocs.2 hx hy h
+        | dir l a =>
+          simp only [specRest] at h; rw [inoAt_cons_ne _ _ _ hnx, inoAt_cons_ne _ _ _ hny] at h
+          exact ih _ _ _ hok hlocs.2 hx hy h
+        | sym l t a =>
+          simp only [specRest] at h; rw [inoAt_cons_ne _ _ _ hnx, inoAt_cons_ne _ _ _ hny] at h
+          exact ih _ _ _ hok hlocs.2 hx hy h
+        | fifo l a =>
+          simp only [specRest] at h; rw [inoAt_cons_ne _ _ _ hnx, inoAt_cons_ne _ _ _ hny] at h
+          exact ih _ _ _ hok hlocs.2 hx hy h
+        | dev l a c mj mn =>
+          simp only [specRest] at h; rw [inoAt_cons_ne _ _ _ hnx, inoAt_cons_ne _ _ _ hny] at h
+          exact ih _ _ _ hok hlocs.2 hx hy h
+
 /-! ## the directory prefix -/
 
 theorem readLoop_prefix (dev : Nat) (ds : List Obj) (ms : List Member) (st : RState)
@@ -601,5 +758,1150 @@ theorem partition_perm (t : List Obj) :
       refine List.Perm.trans ?_ (List.Perm.cons _ ih)
       rw [List.append_assoc, List.append_assoc]
       exact List.perm_middle
+
+
+/-! ## relocation below symlinked directories (`convert_archive`) -/
+
+/-- members with one location are one member -/
+def LocInj (l : List Obj) : Prop := ∀ a ∈ l, ∀ b ∈ l, a.loc = b.loc → a = b
+
+theorem LocInj.mono {a b : List Obj} (h : LocInj b) (hs : ∀ x ∈ a, x ∈ b) : LocInj a :=
+  fun x hx y hy e => h x (hs x hx) y (hs y hy) e
+
+theorem withLoc_loc (e : Obj) (l : Str) : (withLoc e l).loc = l := by cases e <;> rfl
+theorem withLoc_self (e : Obj) : withLoc e e.loc = e := by cases e <;> rfl
+theorem withLoc_withLoc (e : Obj) (a b : Str) : withLoc (withLoc e a) b = withLoc e b := by cases e <;> rfl
+theorem withLoc_isSym (e : Obj) (l : Str) : (withLoc e l).isSym = e.isSym := by cases e <;> rfl
+theorem withLoc_isDir (e : Obj) (l : Str) : (withLoc e l).isDir = e.isDir := by cases e <;> rfl
+theorem withLoc_isReg (e : Obj) (l : Str) : (withLoc e l).isReg = e.isReg := by cases e <;> rfl
+
+/-- adding an entry whose location is either new or already held by the same entry -/
+theorem setAdd_spec (d : List Obj) (o : Obj) (hd : (d.map Obj.loc).Nodup) (h : ∀ x ∈ d, x.loc = o.loc → x = o) :
+    ((setAdd d o).map Obj.loc).Nodup ∧ ∀ y, y ∈ setAdd d o ↔ y ∈ d ∨ y = o := by
+  unfold setAdd
+  by_cases hany : d.any (·.loc == o.loc) = true
+  · rw [if_pos hany]
+    have hid : d.map (fun x => if (x.loc == o.loc) = true then o else x) = d := by
+      conv => rhs; rw [← List.map_id d]
+      apply List.map_congr_left
+      intro x hx
+      by_cases hl : x.loc = o.loc
+      · simp [hl, (h x hx hl)]
+      · have : (x.loc == o.loc) = false := by simpa using hl
+        simp [this]
+    rw [hid]
+    refine ⟨hd, fun y => ⟨Or.inl, fun hy => ?_⟩⟩
+    rcases hy with hy | hy
+    · exact hy
+    · obtain ⟨x, hx, hk⟩ := List.any_eq_true.mp hany
+      have hxo := h x hx (by simpa using hk)
+      rw [hy, ← hxo]; exact hx
+  · rw [if_neg hany]
+    have hno : o.loc ∉ d.map Obj.loc := by
+      intro hm
+      obtain ⟨x, hx, hl⟩ := List.mem_map.mp hm
+      exact hany (List.any_eq_true.mpr ⟨x, hx, by simp [hl]⟩)
+    refine ⟨?_, fun y => by simp⟩
+    rw [List.map_append, List.nodup_append]
+    refine ⟨hd, by simp, ?_⟩
+    intro a ha b hb
+    simp only [List.map_cons, List.map_nil, List.mem_singleton] at hb
+    intro e; rw [e, hb] at ha; exact hno ha
+
+theorem setUpdate_spec (d l : List Obj) (hd : (d.map Obj.loc).Nodup) (h : LocInj (d ++ l)) :
+    ((setUpdate d l).map Obj.loc).Nodup ∧ ∀ y, y ∈ setUpdate d l ↔ y ∈ d ∨ y ∈ l := by
+  induction l generalizing d with
+  | nil => exact ⟨hd, fun y => by simp [setUpdate]⟩
+  | cons p r ih =>
+    have hp := setAdd_spec d p hd (fun x hx e => h x (by simp [hx]) p (by simp) e)
+    have hstep : setUpdate d (p :: r) = setUpdate (setAdd d p) r := rfl
+    rw [hstep]
+    have hinj : LocInj (setAdd d p ++ r) := by
+      apply h.mono
+      intro x hx
+      rcases List.mem_append.mp hx with hx | hx
+      · rcases (hp.2 x).mp hx with hx | hx
+        · simp [hx]
+        · simp [hx]
+      · simp [hx]
+    obtain ⟨h1, h2⟩ := ih (setAdd d p) hp.1 hinj
+    refine ⟨h1, fun y => ?_⟩
+    rw [h2 y, hp.2 y]
+    simp only [List.mem_cons]
+    constructor
+    · rintro ((h | h) | h)
+      · exact Or.inl h
+      · exact Or.inr (Or.inl h)
+      · exact Or.inr (Or.inr h)
+    · rintro (h | h | h)
+      · exact Or.inl (Or.inl h)
+      · exact Or.inl (Or.inr h)
+      · exact Or.inr h
+
+theorem setOf_spec (l : List Obj) (h : LocInj l) : ((setOf l).map Obj.loc).Nodup ∧ ∀ y, y ∈ setOf l ↔ y ∈ l := by
+  have := setUpdate_spec [] l (by simp) (by simpa using h)
+  refine ⟨this.1, fun y => ?_⟩
+  have h2 := this.2 y
+  simpa [setOf, setUpdate] using h2
+
+/-- removing the children of `s` by location removes exactly the entries below `s` -/
+theorem setRemove_childNodes (t : List Obj) (s : Str) :
+    setRemove t (childNodes t s) = t.filter fun e => !isChild s e.loc := by
+  unfold setRemove childNodes
+  apply List.filter_congr
+  intro x hx
+  congr 1
+  cases hc : isChild s x.loc with
+  | true => exact List.any_eq_true.mpr ⟨x, List.mem_filter.mpr ⟨hx, hc⟩, by simp⟩
+  | false =>
+    rw [List.any_eq_false]
+    intro a ha hk
+    have hl : a.loc = x.loc := by simpa using hk
+    have := (List.mem_filter.mp ha).2
+    rw [hl, hc] at this
+    cases this
+
+/-- the entry `e` after the symlink `x` above it has been followed -/
+def mvBy (x e : Obj) : Obj := withLoc e (moveLoc x.loc (symTarget x) e.loc)
+
+/-- the symlink of the pass that moves `e`: the first one (in the order of the pass) that has `e` below it -/
+def mover (xs : List Obj) (e : Obj) : Option Obj := xs.find? fun x => isChild x.loc e.loc
+
+/-- one relocation pass seen from a single entry -/
+def stepObj (xs : List Obj) (e : Obj) : Obj :=
+  match mover xs e with
+  | some x => mvBy x e
+  | none => e
+
+/-- what a pass leaves in place -/
+def passKeep (xs t : List Obj) : List Obj := t.filter fun e => xs.all fun x => !isChild x.loc e.loc
+
+/-- what a pass re-adds -/
+def passAdds : List Obj → List Obj → List Obj
+  | [], _ => []
+  | x :: xs, t => changeOffset (childNodes t x.loc) x.loc (symTarget x)
+      ++ passAdds xs (t.filter fun e => !isChild x.loc e.loc)
+
+theorem relocate_eq (xs t adds : List Obj) : relocate xs t adds = (passKeep xs t, adds ++ passAdds xs t) := by
+  induction xs generalizing t adds with
+  | nil =>
+    simp only [relocate, passKeep, passAdds, List.all_nil, List.append_nil]
+    rw [List.filter_eq_self.mpr (fun _ _ => rfl)]
+  | cons x xs ih =>
+    have hstep : relocate (x :: xs) t adds
+        = relocate xs (t.filter fun e => !isChild x.loc e.loc) (adds ++ changeOffset (childNodes t x.loc) x.loc (symTarget x)) := by
+      simp only [relocate]
+      split
+      · rename_i hemp
+        have hnil : childNodes t x.loc = [] := by simpa using hemp
+        have hself : (t.filter fun e => !isChild x.loc e.loc) = t := by
+          rw [List.filter_eq_self]
+          intro e he
+          unfold childNodes at hnil
+          rw [List.filter_eq_nil_iff] at hnil
+          simpa using hnil e he
+        rw [hself, hnil]
+        simp [changeOffset, setOf]
+      · rw [setRemove_childNodes]
+    rw [hstep, ih]
+    simp only [passKeep, passAdds, List.filter_filter, List.all_cons, List.append_assoc]
+    congr 1
+    apply List.filter_congr
+    intro e _
+    simp [Bool.and_comm]
+
+theorem mem_passKeep (xs t : List Obj) (o : Obj) : o ∈ passKeep xs t ↔ o ∈ t ∧ mover xs o = none := by
+  unfold passKeep mover
+  rw [List.mem_filter, List.find?_eq_none]
+  simp
+
+theorem mem_passAdds (xs t : List Obj)
+    (hinj : ∀ e1 ∈ t, ∀ e2 ∈ t, ∀ x, mover xs e1 = some x → mover xs e2 = some x →
+      (mvBy x e1).loc = (mvBy x e2).loc → e1 = e2) :
+    ∀ o, o ∈ passAdds xs t ↔ ∃ e ∈ t, ∃ x, mover xs e = some x ∧ o = mvBy x e := by
+  induction xs generalizing t with
+  | nil => intro o; simp [passAdds, mover]
+  | cons x xs ih =>
+    intro o
+    have hfirst : ∀ e, isChild x.loc e.loc = true → mover (x :: xs) e = some x := fun e he => by
+      simp [mover, List.find?, he]
+    have hlater : ∀ e, isChild x.loc e.loc = false → mover (x :: xs) e = mover xs e := fun e he => by
+      simp [mover, List.find?, he]
+    -- the entries below `x`
+    have hco : ∀ o, o ∈ changeOffset (childNodes t x.loc) x.loc (symTarget x)
+        ↔ ∃ e ∈ t, isChild x.loc e.loc = true ∧ o = mvBy x e := by
+      intro o
+      have hli : LocInj ((childNodes t x.loc).map fun e => withLoc e (moveLoc x.loc (symTarget x) e.loc)) := by
+        intro a ha b hb hab
+        obtain ⟨e1, he1, rfl⟩ := List.mem_map.mp ha
+        obtain ⟨e2, he2, rfl⟩ := List.mem_map.mp hb
+        have h1 := List.mem_filter.mp he1
+        have h2 := List.mem_filter.mp he2
+        have := hinj e1 h1.1 e2 h2.1 x (hfirst e1 h1.2) (hfirst e2 h2.2) hab
+        rw [this]
+      unfold changeOffset
+      rw [(setOf_spec _ hli).2 o, List.mem_map]
+      constructor
+      · rintro ⟨e, he, rfl⟩
+        exact ⟨e, (List.mem_filter.mp he).1, (List.mem_filter.mp he).2, rfl⟩
+      · rintro ⟨e, he, hc, rfl⟩
+        exact ⟨e, List.mem_filter.mpr ⟨he, hc⟩, rfl⟩
+    have hrest := ih (t.filter fun e => !isChild x.loc e.loc) (by
+      intro e1 h1 e2 h2 x' m1 m2 hl
+      have c1 : isChild x.loc e1.loc = false := by simpa using (List.mem_filter.mp h1).2
+      have c2 : isChild x.loc e2.loc = false := by simpa using (List.mem_filter.mp h2).2
+      exact hinj e1 (List.mem_filter.mp h1).1 e2 (List.mem_filter.mp h2).1 x'
+        (by rw [hlater e1 c1]; exact m1) (by rw [hlater e2 c2]; exact m2) hl) o
+    simp only [passAdds, List.mem_append, hco o, hrest]
+    constructor
+    · rintro (⟨e, he, hc, rfl⟩ | ⟨e, he, x', hm, rfl⟩)
+      · exact ⟨e, he, x, hfirst e hc, rfl⟩
+      · have c : isChild x.loc e.loc = false := by simpa using (List.mem_filter.mp he).2
+        exact ⟨e, (List.mem_filter.mp he).1, x', by rw [hlater e c]; exact hm, rfl⟩
+    · rintro ⟨e, he, x', hm, rfl⟩
+      cases hc : isChild x.loc e.loc with
+      | true =>
+        rw [hfirst e hc] at hm
+        cases hm
+        exact Or.inl ⟨e, he, hc, rfl⟩
+      | false =>
+        rw [hlater e hc] at hm
+        exact Or.inr ⟨e, List.mem_filter.mpr ⟨he, by simp [hc]⟩, x', hm, rfl⟩
+
+/-- **one pass**: every entry makes the step `stepObj` says, nothing else happens -/
+theorem pass_spec (xs t : List Obj) (hnd : (t.map Obj.loc).Nodup)
+    (hinj : ∀ e1 ∈ t, ∀ e2 ∈ t, (stepObj xs e1).loc = (stepObj xs e2).loc → e1 = e2) :
+    (((setUpdate (relocate xs t []).1 (relocate xs t []).2).map Obj.loc).Nodup ∧
+      ∀ o, o ∈ setUpdate (relocate xs t []).1 (relocate xs t []).2 ↔ ∃ e ∈ t, o = stepObj xs e) ∧
+    ((relocate xs t []).2 = [] ↔ ∀ e ∈ t, mover xs e = none) ∧
+    ((relocate xs t []).2 = [] → (relocate xs t []).1 = t) := by
+  rw [relocate_eq]
+  simp only [List.nil_append]
+  have hadds := mem_passAdds xs t (by
+    intro e1 h1 e2 h2 x m1 m2 hl
+    apply hinj e1 h1 e2 h2
+    simp only [stepObj, m1, m2]
+    exact hl)
+  have hmem : ∀ o, o ∈ passKeep xs t ∨ o ∈ passAdds xs t ↔ ∃ e ∈ t, o = stepObj xs e := by
+    intro o
+    rw [mem_passKeep, hadds o]
+    constructor
+    · rintro (⟨ho, hm⟩ | ⟨e, he, x, hm, rfl⟩)
+      · exact ⟨o, ho, by simp [stepObj, hm]⟩
+      · exact ⟨e, he, by simp [stepObj, hm]⟩
+    · rintro ⟨e, he, rfl⟩
+      cases hm : mover xs e with
+      | none => left; rw [show stepObj xs e = e by simp [stepObj, hm]]; exact ⟨he, hm⟩
+      | some x => right; exact ⟨e, he, x, hm, by simp [stepObj, hm]⟩
+  have hli : LocInj (passKeep xs t ++ passAdds xs t) := by
+    intro a ha b hb hab
+    obtain ⟨e1, h1, rfl⟩ := (hmem a).mp (List.mem_append.mp ha)
+    obtain ⟨e2, h2, rfl⟩ := (hmem b).mp (List.mem_append.mp hb)
+    rw [hinj e1 h1 e2 h2 hab]
+  have hkeep : ((passKeep xs t).map Obj.loc).Nodup := (List.filter_sublist.map Obj.loc).nodup hnd
+  have hsu := setUpdate_spec _ _ hkeep hli
+  refine ⟨⟨hsu.1, fun o => by rw [hsu.2 o, hmem o]⟩, ?_, ?_⟩
+  · constructor
+    · intro hnil e he
+      cases hm : mover xs e with
+      | none => rfl
+      | some x =>
+        have : mvBy x e ∈ passAdds xs t := (hadds _).mpr ⟨e, he, x, hm, rfl⟩
+        rw [hnil] at this
+        cases this
+    · intro hall
+      apply List.eq_nil_iff_forall_not_mem.mpr
+      intro o ho
+      obtain ⟨e, he, x, hm, _⟩ := (hadds o).mp ho
+      rw [hall e he] at hm
+      cases hm
+  · intro hnil
+    unfold passKeep
+    rw [List.filter_eq_self]
+    intro e he
+    have hm : mover xs e = none := by
+      cases hm : mover xs e with
+      | none => rfl
+      | some x =>
+        have : mvBy x e ∈ passAdds xs t := (hadds _).mpr ⟨e, he, x, hm, rfl⟩
+        rw [hnil] at this
+        cases this
+    unfold mover at hm
+    rw [List.find?_eq_none] at hm
+    simpa using hm
+
+
+/-! ### the repeated passes reach the resolved locations -/
+
+/-- a resolution step, or the location itself when nothing is above it -/
+def stepOrId (xs : List Obj) (p : Str) : Str := (stepLoc xs p).getD p
+
+theorem resolveDir_settled (n : Nat) (xs : List Obj) (p : Str) (h : stepLoc xs p = none) : resolveDir n xs p = p := by
+  cases n <;> simp [resolveDir, h]
+
+theorem resolveDir_add (a b : Nat) (xs : List Obj) (p : Str) :
+    resolveDir (a + b) xs p = resolveDir b xs (resolveDir a xs p) := by
+  induction a generalizing p with
+  | zero => simp [resolveDir]
+  | succ a ih =>
+    rw [show a + 1 + b = (a + b) + 1 by omega]
+    simp only [resolveDir]
+    cases hs : stepLoc xs p with
+    | none => simp only; rw [resolveDir_settled b xs p hs]
+    | some p' => simp only; exact ih p'
+
+theorem resolveDir_one (xs : List Obj) (p : Str) : resolveDir 1 xs p = stepOrId xs p := by
+  simp only [resolveDir, stepOrId]
+  cases stepLoc xs p <;> rfl
+
+theorem resolveDir_succ (k : Nat) (xs : List Obj) (p : Str) :
+    resolveDir (k + 1) xs p = stepOrId xs (resolveDir k xs p) := by
+  rw [resolveDir_add, resolveDir_one]
+
+theorem stepLoc_eq_mover (xs : List Obj) (e : Obj) :
+    stepLoc xs e.loc = (mover xs e).map fun s => moveLoc s.loc (symTarget s) e.loc := rfl
+
+theorem stepObj_eq (xs : List Obj) (e : Obj) : stepObj xs e = withLoc e (stepOrId xs e.loc) := by
+  unfold stepObj stepOrId
+  rw [stepLoc_eq_mover]
+  cases mover xs e with
+  | none => simp [withLoc_self]
+  | some x => simp [mvBy]
+
+theorem relocatePasses_succ (m : Nat) (xs t : List Obj) :
+    relocatePasses (m + 1) xs t = if (relocate xs t []).2.isEmpty then (relocate xs t []).1
+      else relocatePasses m xs (setUpdate (relocate xs t []).1 (relocate xs t []).2) := by
+  cases h : relocate xs t [] with
+  | mk a b => simp [relocatePasses, h]
+
+/-- **the passes**: when `n` resolution steps settle every entry and send different entries to different places,
+`n + 1` passes (or fewer, when a pass moves nothing) leave every entry at its resolved place -/
+theorem passes_spec (xs t0 : List Obj) (n : Nat)
+    (hinj : ∀ e1 ∈ t0, ∀ e2 ∈ t0, resolveDir n xs e1.loc = resolveDir n xs e2.loc → e1 = e2)
+    (hdepth : ∀ e ∈ t0, stepLoc xs (resolveDir n xs e.loc) = none) :
+    ∀ m k t, k + m = n + 1 → (t.map Obj.loc).Nodup →
+      (∀ o, o ∈ t ↔ ∃ e ∈ t0, o = withLoc e (resolveDir k xs e.loc)) →
+      ((relocatePasses m xs t).map Obj.loc).Nodup ∧
+        ∀ o, o ∈ relocatePasses m xs t ↔ ∃ e ∈ t0, o = withLoc e (resolveDir n xs e.loc) := by
+  have hlast : ∀ e ∈ t0, resolveDir (n + 1) xs e.loc = resolveDir n xs e.loc := fun e he => by
+    rw [resolveDir_add, resolveDir_settled 1 xs _ (hdepth e he)]
+  intro m
+  induction m with
+  | zero =>
+    intro k t hk hnd hmem
+    have hk' : k = n + 1 := by omega
+    subst hk'
+    refine ⟨hnd, fun o => ?_⟩
+    simp only [relocatePasses]
+    rw [hmem o]
+    constructor
+    · rintro ⟨e, he, rfl⟩; exact ⟨e, he, by rw [hlast e he]⟩
+    · rintro ⟨e, he, rfl⟩; exact ⟨e, he, by rw [hlast e he]⟩
+  | succ m ih =>
+    intro k t hk hnd hmem
+    -- a step on a member of `t` is the next resolution step of the entry it comes from
+    have hstep : ∀ e, stepObj xs (withLoc e (resolveDir k xs e.loc)) = withLoc e (resolveDir (k + 1) xs e.loc) := by
+      intro e
+      rw [stepObj_eq, withLoc_loc, withLoc_withLoc, resolveDir_succ]
+    have hup : ∀ e ∈ t0, ∀ e' ∈ t0, resolveDir (k + 1) xs e.loc = resolveDir (k + 1) xs e'.loc → e = e' := by
+      intro e he e' he' heq
+      apply hinj e he e' he'
+      rw [← hlast e he, ← hlast e' he', show n + 1 = (k + 1) + m by omega, resolveDir_add (k + 1) m xs e.loc,
+        resolveDir_add (k + 1) m xs e'.loc, heq]
+    have hpass := pass_spec xs t hnd (by
+      intro o1 h1 o2 h2 hl
+      obtain ⟨e1, he1, rfl⟩ := (hmem o1).mp h1
+      obtain ⟨e2, he2, rfl⟩ := (hmem o2).mp h2
+      rw [hstep, hstep, withLoc_loc, withLoc_loc] at hl
+      rw [hup e1 he1 e2 he2 hl])
+    rw [relocatePasses_succ]
+    by_cases hemp : (relocate xs t []).2.isEmpty = true
+    · rw [if_pos hemp]
+      have hnil : (relocate xs t []).2 = [] := by simpa using hemp
+      rw [hpass.2.2 hnil]
+      have hnone := hpass.2.1.mp hnil
+      refine ⟨hnd, fun o => ?_⟩
+      have hsettled : ∀ e ∈ t0, resolveDir n xs e.loc = resolveDir k xs e.loc := by
+        intro e he
+        have hm := hnone _ ((hmem _).mpr ⟨e, he, rfl⟩)
+        have hs : stepLoc xs (resolveDir k xs e.loc) = none := by
+          have := stepLoc_eq_mover xs (withLoc e (resolveDir k xs e.loc))
+          rw [withLoc_loc, hm] at this
+          exact this
+        rw [show n = k + (n - k) by omega, resolveDir_add, resolveDir_settled _ xs _ hs]
+      rw [hmem o]
+      constructor
+      · rintro ⟨e, he, rfl⟩; exact ⟨e, he, by rw [hsettled e he]⟩
+      · rintro ⟨e, he, rfl⟩; exact ⟨e, he, by rw [hsettled e he]⟩
+    · rw [if_neg hemp]
+      apply ih (k + 1) _ (by omega) hpass.1.1
+      intro o
+      rw [hpass.1.2 o]
+      constructor
+      · rintro ⟨o', ho', rfl⟩
+        obtain ⟨e, he, rfl⟩ := (hmem o').mp ho'
+        exact ⟨e, he, hstep e⟩
+      · rintro ⟨e, he, rfl⟩
+        exact ⟨_, (hmem _).mpr ⟨e, he, rfl⟩, (hstep e).symm⟩
+
+
+/-! ### at most one symlink of a flat archive is above a location -/
+
+/-- the location of a symlinked directory is normalised: `child_nodes` tests the location followed by a slash -/
+abbrev LocNorm (l : Str) : Prop := cnPrefix l = l ++ ['/']
+
+theorem slash_prefix_cases (u v p : Str) (hu : (u ++ ['/']) <+: p) (hv : (v ++ ['/']) <+: p) (hl : u.length ≤ v.length) :
+    u = v ∨ (u ++ ['/']) <+: v := by
+  have h1 : (u ++ ['/']) <+: (v ++ ['/']) := List.prefix_of_prefix_length_le hu hv (by simp; exact hl)
+  by_cases he : u.length = v.length
+  · left
+    have := h1.eq_of_length (by simp [he])
+    exact List.append_cancel_right this
+  · right
+    exact List.prefix_of_prefix_length_le h1 (List.prefix_append v ['/']) (by simp; omega)
+
+theorem ancestor_sym_unique (F : List Obj) (hn : ∀ s ∈ F, LocNorm s.loc)
+    (hflat : ∀ a ∈ F, ∀ b ∈ F, isChild a.loc b.loc = false) (hlocs : ∀ a ∈ F, ∀ b ∈ F, a.loc = b.loc → a = b)
+    (p : Str) (a b : Obj) (ha : a ∈ F) (hb : b ∈ F) (hpa : isChild a.loc p = true) (hpb : isChild b.loc p = true) : a = b := by
+  have ea := hn a ha
+  have eb := hn b hb
+  unfold LocNorm at ea eb
+  unfold isChild at hpa hpb
+  rw [ea] at hpa
+  rw [eb] at hpb
+  rw [List.isPrefixOf_iff_prefix] at hpa hpb
+  rcases Nat.le_total a.loc.length b.loc.length with hl | hl
+  · rcases slash_prefix_cases _ _ p hpa hpb hl with h | h
+    · exact hlocs a ha b hb h
+    · have := hflat a ha b hb
+      unfold isChild at this
+      rw [ea] at this
+      rw [← List.isPrefixOf_iff_prefix] at h
+      rw [h] at this; cases this
+  · rcases slash_prefix_cases _ _ p hpb hpa hl with h | h
+    · exact (hlocs b hb a ha h).symm
+    · have := hflat b hb a ha
+      unfold isChild at this
+      rw [eb] at this
+      rw [← List.isPrefixOf_iff_prefix] at h
+      rw [h] at this; cases this
+
+theorem find?_perm_unique {α : Type} (p : α → Bool) (l1 l2 : List α) (hp : l1.Perm l2)
+    (hu : ∀ a ∈ l1, ∀ b ∈ l1, p a = true → p b = true → a = b) : l1.find? p = l2.find? p := by
+  cases h1 : l1.find? p with
+  | none =>
+    rw [List.find?_eq_none] at h1
+    symm
+    rw [List.find?_eq_none]
+    exact fun x hx => h1 x (hp.mem_iff.mpr hx)
+  | some a =>
+    have ha := List.mem_of_find?_eq_some h1
+    have hpa := List.find?_some h1
+    cases h2 : l2.find? p with
+    | none =>
+      rw [List.find?_eq_none] at h2
+      exact absurd hpa (h2 a (hp.mem_iff.mp ha))
+    | some b =>
+      have hb := hp.mem_iff.mpr (List.mem_of_find?_eq_some h2)
+      rw [hu a ha b hb hpa (List.find?_some h2)]
+
+theorem resolveDir_congr (n : Nat) (a b : List Obj) (h : ∀ p, stepLoc a p = stepLoc b p) (p : Str) :
+    resolveDir n a p = resolveDir n b p := by
+  induction n generalizing p with
+  | zero => rfl
+  | succ n ih =>
+    simp only [resolveDir, h p]
+    cases stepLoc b p with
+    | none => rfl
+    | some p' => exact ih p'
+
+/-! ### `dirname` -/
+
+theorem joinWith_dropLast (sep : Char) : ∀ (comps : List Str), 2 ≤ comps.length →
+    ∃ last, joinWith sep comps = joinWith sep comps.dropLast ++ sep :: last
+  | [], h => by simp at h
+  | [_], h => by simp at h
+  | [a, b], _ => ⟨b, by simp [joinWith, List.dropLast]⟩
+  | a :: b :: c :: rest, _ => by
+    obtain ⟨last, hl⟩ := joinWith_dropLast sep (b :: c :: rest) (by simp)
+    refine ⟨last, ?_⟩
+    have hd : (a :: b :: c :: rest).dropLast = a :: b :: (c :: rest).dropLast := by simp [List.dropLast]
+    have hd' : (b :: c :: rest).dropLast = b :: (c :: rest).dropLast := by simp [List.dropLast]
+    have e1 : joinWith sep (a :: b :: c :: rest) = a ++ sep :: joinWith sep (b :: c :: rest) := rfl
+    have e2 : joinWith sep (a :: b :: (c :: rest).dropLast) = a ++ sep :: joinWith sep (b :: (c :: rest).dropLast) := rfl
+    rw [hd, e1, e2, hl, hd']
+    simp
+
+theorem rstrip_prefix (s : Str) : ((s.reverse.dropWhile (· = '/')).reverse) <+: s := by
+  have hsuf : (s.reverse.dropWhile (· = '/')) <:+ s.reverse := List.dropWhile_suffix _
+  have := List.reverse_prefix.mpr hsuf
+  simpa using this
+
+/-- `dirname p` is an initial piece of `p` -/
+theorem dirName_prefix (p : Str) : dirName p <+: p := by
+  unfold dirName
+  simp only
+  split
+  · exact List.nil_prefix
+  · rename_i hlen
+    obtain ⟨last, hl⟩ := joinWith_dropLast '/' (splitOn '/' p) (by omega)
+    rw [joinWith_splitOn] at hl
+    have hhead : joinWith '/' (splitOn '/' p).dropLast <+: p := ⟨'/' :: last, hl.symm⟩
+    split
+    · split
+      · rename_i hemp
+        have : joinWith '/' (splitOn '/' p).dropLast = [] := by simpa using hemp
+        rw [this] at hl
+        exact ⟨last, hl.symm⟩
+      · exact hhead
+    · exact (rstrip_prefix _).trans hhead
+
+/-- `dirname` shortens every path but the root and the empty path -/
+theorem dirName_length (p : Str) (h1 : p ≠ []) (h2 : p ≠ ['/']) : (dirName p).length < p.length := by
+  unfold dirName
+  simp only
+  split
+  · cases p with
+    | nil => exact absurd rfl h1
+    | cons c cs => simp
+  · rename_i hlen
+    obtain ⟨last, hl⟩ := joinWith_dropLast '/' (splitOn '/' p) (by omega)
+    rw [joinWith_splitOn] at hl
+    have hlen' : p.length = (joinWith '/' (splitOn '/' p).dropLast).length + 1 + last.length := by
+      conv => lhs; rw [hl]
+      simp; omega
+    split
+    · split
+      · rename_i hemp
+        have he : joinWith '/' (splitOn '/' p).dropLast = [] := by simpa using hemp
+        rw [he] at hl hlen'
+        cases last with
+        | nil => exact absurd hl h2
+        | cons c cs => simp at hlen' ⊢; omega
+      · omega
+    · have := (rstrip_prefix (joinWith '/' (splitOn '/' p).dropLast)).length_le
+      omega
+
+
+/-! ### `add_missing_directories` -/
+
+theorem dirNameN_add (a b : Nat) (p : Str) : dirNameN a (dirNameN b p) = dirNameN (a + b) p := by
+  induction a with
+  | zero => simp [dirNameN]
+  | succ a ih => rw [show a + 1 + b = (a + b) + 1 by omega]; simp only [dirNameN, ih]
+
+theorem dirName_root : dirName ['/'] = ['/'] := by decide
+theorem dirName_nil : dirName [] = [] := by decide
+
+theorem dirNameN_root (k : Nat) : dirNameN k ['/'] = ['/'] := by
+  induction k with
+  | zero => rfl
+  | succ k ih => simp only [dirNameN, ih, dirName_root]
+
+theorem dirNameN_nil (k : Nat) : dirNameN k [] = [] := by
+  induction k with
+  | zero => rfl
+  | succ k ih => simp only [dirNameN, ih, dirName_nil]
+
+/-- a proper ancestor that is neither the root nor empty is reached in fewer steps than the path has characters -/
+theorem dirNameN_length (k : Nat) (q : Str) (h1 : dirNameN k q ≠ []) (h2 : dirNameN k q ≠ ['/']) :
+    (dirNameN k q).length + k ≤ q.length := by
+  induction k with
+  | zero => simp [dirNameN]
+  | succ k ih =>
+    simp only [dirNameN] at h1 h2 ⊢
+    have r1 : dirNameN k q ≠ [] := fun e => h1 (by rw [e]; exact dirName_nil)
+    have r2 : dirNameN k q ≠ ['/'] := fun e => h2 (by rw [e]; exact dirName_root)
+    have := dirName_length _ r1 r2
+    have := ih r1 r2
+    omega
+
+theorem mem_ancestors (p q : Str) : p ∈ ancestors q ↔ ∃ j, j < q.length ∧ p = dirNameN (j + 1) q := by
+  unfold ancestors
+  rw [List.mem_map]
+  constructor
+  · rintro ⟨j, hj, rfl⟩; exact ⟨j, List.mem_range.mp hj, rfl⟩
+  · rintro ⟨j, hj, rfl⟩; exact ⟨j, List.mem_range.mpr hj, rfl⟩
+
+theorem le_maxLocLen (t : List Obj) (e : Obj) (h : e ∈ t) : e.loc.length ≤ maxLocLen t := by
+  induction t with
+  | nil => simp at h
+  | cons x r ih =>
+    simp only [maxLocLen, List.foldr_cons]
+    rcases List.mem_cons.mp h with h | h
+    · rw [h]; exact Nat.le_max_left _ _
+    · exact Nat.le_trans (ih h) (Nat.le_max_right _ _)
+
+theorem nodup_eraseDups : ∀ (l : List Str), l.eraseDups.Nodup
+  | [] => by simp
+  | a :: as => by
+    rw [List.eraseDups_cons]
+    refine List.nodup_cons.mpr ⟨?_, nodup_eraseDups (as.filter fun b => !(b == a))⟩
+    intro h
+    have := List.mem_eraseDups.mp h
+    simp at this
+termination_by l => l.length
+decreasing_by
+  simp only [List.length_cons]
+  exact Nat.lt_succ_of_le (List.length_filter_le _ _)
+
+/-- the missing parents of one round -/
+def roundMissing (t : List Obj) : List Str :=
+  ((t.map fun x => dirName x.loc).filter fun p => !(t.any (·.loc == p)) && p != ['/'] && !p.isEmpty).eraseDups
+
+theorem missingDirs_succ (fuel : Nat) (t : List Obj) :
+    missingDirs (fuel + 1) t = if (roundMissing t).isEmpty then []
+      else roundMissing t ++ missingDirs fuel (t ++ (roundMissing t).map newDir) := rfl
+
+theorem mem_roundMissing (t : List Obj) (p : Str) :
+    p ∈ roundMissing t ↔ (∃ e ∈ t, p = dirName e.loc) ∧ p ∉ t.map Obj.loc ∧ p ≠ ['/'] ∧ p ≠ [] := by
+  unfold roundMissing
+  rw [List.mem_eraseDups, List.mem_filter, List.mem_map]
+  constructor
+  · rintro ⟨⟨e, he, rfl⟩, hc⟩
+    simp only [Bool.and_eq_true, Bool.not_eq_true', bne_iff_ne, ne_eq] at hc
+    refine ⟨⟨e, he, rfl⟩, ?_, hc.1.2, fun e0 => by rw [e0] at hc; exact absurd hc.2 (by simp)⟩
+    intro hm
+    obtain ⟨x, hx, hl⟩ := List.mem_map.mp hm
+    have : t.any (·.loc == dirName e.loc) = true := List.any_eq_true.mpr ⟨x, hx, by simp [hl]⟩
+    rw [this] at hc
+    exact absurd hc.1.1 (by simp)
+  · rintro ⟨⟨e, he, rfl⟩, hno, h1, h2⟩
+    refine ⟨⟨e, he, rfl⟩, ?_⟩
+    have : t.any (·.loc == dirName e.loc) = false := by
+      rw [List.any_eq_false]
+      intro x hx hk
+      exact hno (List.mem_map.mpr ⟨x, hx, by simpa using hk⟩)
+    simp [this, h1, h2]
+
+theorem missingDirs_sound (fuel : Nat) (t : List Obj) (p : Str) (h : p ∈ missingDirs fuel t) :
+    p ∉ t.map Obj.loc ∧ p ≠ ['/'] ∧ p ≠ [] ∧ ∃ e ∈ t, ∃ j, p = dirNameN (j + 1) e.loc := by
+  induction fuel generalizing t with
+  | zero => simp [missingDirs] at h
+  | succ fuel ih =>
+    rw [missingDirs_succ] at h
+    split at h
+    · simp at h
+    · rcases List.mem_append.mp h with h | h
+      · obtain ⟨⟨e, he, rfl⟩, hno, h1, h2⟩ := (mem_roundMissing t p).mp h
+        exact ⟨hno, h1, h2, e, he, 0, rfl⟩
+      · obtain ⟨hno, h1, h2, e, he, j, hj⟩ := ih _ h
+        refine ⟨fun hm => hno (by rw [List.map_append]; exact List.mem_append_left _ hm), h1, h2, ?_⟩
+        rcases List.mem_append.mp he with he | he
+        · exact ⟨e, he, j, hj⟩
+        · obtain ⟨q, hq, rfl⟩ := List.mem_map.mp he
+          obtain ⟨⟨e', he', rfl⟩, _⟩ := (mem_roundMissing t q).mp hq
+          refine ⟨e', he', j + 1, ?_⟩
+          rw [hj]
+          show dirNameN (j + 1) (dirNameN 1 e'.loc) = _
+          rw [dirNameN_add]
+
+theorem missingDirs_complete (j : Nat) : ∀ (fuel : Nat) (t : List Obj) (e : Obj), e ∈ t → j + 1 ≤ fuel →
+    dirNameN (j + 1) e.loc ∉ t.map Obj.loc → dirNameN (j + 1) e.loc ≠ ['/'] → dirNameN (j + 1) e.loc ≠ [] →
+    dirNameN (j + 1) e.loc ∈ missingDirs fuel t := by
+  induction j with
+  | zero =>
+    intro fuel t e he hf hno h1 h2
+    obtain ⟨f, rfl⟩ : ∃ f, fuel = f + 1 := ⟨fuel - 1, by omega⟩
+    have hm : dirNameN 1 e.loc ∈ roundMissing t := (mem_roundMissing t _).mpr ⟨⟨e, he, rfl⟩, hno, h1, h2⟩
+    rw [missingDirs_succ]
+    have hne : (roundMissing t).isEmpty = false := by
+      cases hr : roundMissing t with
+      | nil => rw [hr] at hm; cases hm
+      | cons a b => rfl
+    rw [hne]
+    exact List.mem_append_left _ hm
+  | succ j ih =>
+    intro fuel t e he hf hno h1 h2
+    obtain ⟨f, rfl⟩ : ∃ f, fuel = f + 1 := ⟨fuel - 1, by omega⟩
+    have hsplit : dirNameN (j + 1 + 1) e.loc = dirNameN (j + 1) (dirName e.loc) := by
+      show _ = dirNameN (j + 1) (dirNameN 1 e.loc)
+      rw [dirNameN_add]
+    by_cases hq : dirName e.loc ∈ t.map Obj.loc
+    · obtain ⟨e', he', hl⟩ := List.mem_map.mp hq
+      rw [hsplit, ← hl] at hno h1 h2 ⊢
+      exact ih (f + 1) t e' he' (by omega) hno h1 h2
+    · have hq1 : dirName e.loc ≠ ['/'] := fun e1 => h1 (by rw [hsplit, e1]; exact dirNameN_root _)
+      have hq2 : dirName e.loc ≠ [] := fun e2 => h2 (by rw [hsplit, e2]; exact dirNameN_nil _)
+      have hm : dirName e.loc ∈ roundMissing t := (mem_roundMissing t _).mpr ⟨⟨e, he, rfl⟩, hq, hq1, hq2⟩
+      rw [missingDirs_succ]
+      have hne : (roundMissing t).isEmpty = false := by
+        cases hr : roundMissing t with
+        | nil => rw [hr] at hm; cases hm
+        | cons a b => rfl
+      rw [hne]
+      simp only [Bool.false_eq_true, if_false]
+      by_cases hpm : dirNameN (j + 1 + 1) e.loc ∈ roundMissing t
+      · exact List.mem_append_left _ hpm
+      · apply List.mem_append_right
+        have hin : newDir (dirName e.loc) ∈ t ++ (roundMissing t).map newDir :=
+          List.mem_append_right _ (List.mem_map_of_mem hm)
+        have := ih f (t ++ (roundMissing t).map newDir) (newDir (dirName e.loc)) hin (by omega)
+        rw [show (newDir (dirName e.loc)).loc = dirName e.loc from rfl] at this
+        rw [hsplit] at hno h1 h2 hpm ⊢
+        apply this _ h1 h2
+        rw [List.map_append]
+        intro hmem
+        rcases List.mem_append.mp hmem with hmem | hmem
+        · exact hno hmem
+        · rw [List.map_map] at hmem
+          obtain ⟨q, hq', hl⟩ := List.mem_map.mp hmem
+          rw [show (Obj.loc ∘ newDir) q = q from rfl] at hl
+          rw [← hl] at hpm
+          exact hpm hq'
+
+/-- **`add_missing_directories`** with enough rounds adds exactly the proper ancestors that are not in the set
+(the root excepted) -/
+theorem missingDirs_spec (t : List Obj) (p : Str) :
+    p ∈ missingDirs (maxLocLen t + 1) t ↔
+      p ∉ t.map Obj.loc ∧ p ≠ ['/'] ∧ p ≠ [] ∧ ∃ e ∈ t, p ∈ ancestors e.loc := by
+  constructor
+  · intro h
+    obtain ⟨hno, h1, h2, e, he, j, hj⟩ := missingDirs_sound _ t p h
+    refine ⟨hno, h1, h2, e, he, (mem_ancestors p e.loc).mpr ⟨j, ?_, hj⟩⟩
+    have := dirNameN_length (j + 1) e.loc (by rw [← hj]; exact h2) (by rw [← hj]; exact h1)
+    omega
+  · rintro ⟨hno, h1, h2, e, he, ha⟩
+    obtain ⟨j, hj, rfl⟩ := (mem_ancestors p e.loc).mp ha
+    exact missingDirs_complete j _ t e he (by have := le_maxLocLen t e he; omega) hno h1 h2
+
+
+/-! ### `convert_archive` assembled -/
+
+/-- the final ordering of `convert_archive`: directories, then symlinks/fifos/devices (both by location), then
+the regular files in the order of their data sources in the archive -/
+def sort3 (t : List Obj) : List Obj :=
+  C28.sortBy Obj.loc (t.filter Obj.isDir) ++ C28.sortBy Obj.loc (t.filter fun o => !o.isDir && !o.isReg)
+    ++ sortByNat srcOf (t.filter Obj.isReg)
+
+theorem sort3_perm (t : List Obj) : (sort3 t).Perm t :=
+  (((C28.sortBy_perm _ _).append (C28.sortBy_perm _ _)).append (sortByNat_perm _ _)).trans (partition_perm t)
+
+theorem insertByNat_pairwise (key : Obj → Nat) (e : Obj) (l : List Obj) (h : l.Pairwise fun a b => key a ≤ key b) :
+    (insertByNat key e l).Pairwise fun a b => key a ≤ key b := by
+  induction l with
+  | nil => simp [insertByNat]
+  | cons x xs ih =>
+    rw [List.pairwise_cons] at h
+    unfold insertByNat
+    split
+    · rename_i hle
+      rw [List.pairwise_cons]
+      refine ⟨?_, List.pairwise_cons.mpr h⟩
+      intro y hy
+      rcases List.mem_cons.mp hy with rfl | hy
+      · exact hle
+      · exact Nat.le_trans hle (h.1 y hy)
+    · rename_i hnle
+      rw [List.pairwise_cons]
+      refine ⟨?_, ih h.2⟩
+      intro y hy
+      rcases List.mem_cons.mp ((insertByNat_perm key e xs).mem_iff.mp hy) with rfl | hy
+      · exact Nat.le_of_not_le hnle
+      · exact h.1 y hy
+
+theorem sortByNat_pairwise (key : Obj → Nat) (l : List Obj) : (sortByNat key l).Pairwise fun a b => key a ≤ key b := by
+  induction l with
+  | nil => simp [sortByNat]
+  | cons e r ih => exact insertByNat_pairwise key e _ ih
+
+theorem nodup_map_on {α β : Type} (f : α → β) (l : List α) (hl : l.Nodup)
+    (hf : ∀ a ∈ l, ∀ b ∈ l, f a = f b → a = b) : (l.map f).Nodup := by
+  induction l with
+  | nil => simp
+  | cons x r ih =>
+    rw [List.nodup_cons] at hl
+    rw [List.map_cons, List.nodup_cons]
+    refine ⟨?_, ih hl.2 (fun a ha b hb => hf a (by simp [ha]) b (by simp [hb]))⟩
+    intro hm
+    obtain ⟨y, hy, he⟩ := List.mem_map.mp hm
+    have := hf y (by simp [hy]) x (by simp) he
+    rw [this] at hy
+    exact hl.1 hy
+
+theorem nodup_of_nodup_map {α β : Type} (f : α → β) (l : List α) (h : (l.map f).Nodup) : l.Nodup := by
+  induction l with
+  | nil => simp
+  | cons x r ih =>
+    rw [List.map_cons, List.nodup_cons] at h
+    exact List.nodup_cons.mpr ⟨fun hx => h.1 (List.mem_map_of_mem hx), ih h.2⟩
+
+theorem dirNameN_prefix (k : Nat) (q : Str) : dirNameN k q <+: q := by
+  induction k with
+  | zero => exact List.prefix_refl _
+  | succ k ih => exact (dirName_prefix _).trans ih
+
+/-- removing the symlinks by location removes exactly the symlinks -/
+theorem setRemove_syms (raw : List Obj) (hlocs : (raw.map Obj.loc).Nodup) :
+    setRemove raw (raw.filter Obj.isSym) = raw.filter (fun o => !o.isSym) := by
+  unfold setRemove
+  apply List.filter_congr
+  intro x hx
+  cases hxs : x.isSym with
+  | true =>
+    have : (raw.filter Obj.isSym).any (·.loc == x.loc) = true :=
+      List.any_eq_true.mpr ⟨x, List.mem_filter.mpr ⟨hx, hxs⟩, by simp⟩
+    simp [this]
+  | false =>
+    have : (raw.filter Obj.isSym).any (·.loc == x.loc) = false := by
+      rw [List.any_eq_false]
+      intro s hs hk
+      have hsl : s.loc = x.loc := by simpa using hk
+      have heq := C28.key_inj_of_nodup Obj.loc raw hlocs s x (List.mem_filter.mp hs).1 hx hsl
+      have hss := (List.mem_filter.mp hs).2
+      rw [heq, hxs] at hss
+      cases hss
+    simp [this]
+
+/-- the archives `convert_relocates` speaks about: distinct locations; the symlinks sit at normalised locations
+and none of them is recorded below another one; `symsOf raw`.length resolution steps settle every location (no
+cycle: a chain that follows every symlink once is that long); different entries resolve to different places -/
+structure Relocatable (raw : List Obj) : Prop where
+  locs : (raw.map Obj.loc).Nodup
+  norm : ∀ s ∈ symsOf raw, LocNorm s.loc
+  flat : ∀ a ∈ symsOf raw, ∀ b ∈ symsOf raw, isChild a.loc b.loc = false
+  depth : ∀ e ∈ raw, stepLoc (symsOf raw) (resolveDir (symsOf raw).length (symsOf raw) e.loc) = none
+  inj : ∀ a ∈ raw, ∀ b ∈ raw,
+    resolveDir (symsOf raw).length (symsOf raw) a.loc = resolveDir (symsOf raw).length (symsOf raw) b.loc → a = b
+
+/-- the directories `add_missing_directories` creates for the set `t` -/
+def addedDirs (t : List Obj) : List Str := (missingDirs (maxLocLen t + 1) t).eraseDups
+
+theorem convert_flat (raw : List Obj) (h : Relocatable raw) :
+    ∃ t1, (t1.map Obj.loc).Nodup ∧ (∀ o, o ∈ t1 ↔ ∃ e ∈ raw, o = placeOf raw e) ∧
+      ((t1 ++ (addedDirs t1).map newDir).map Obj.loc).Nodup ∧
+      convertArchive raw = some (sort3 (t1 ++ (addedDirs t1).map newDir)) := by
+  have hsub : ∀ x ∈ symsOf raw, x ∈ raw := fun x hx => (List.mem_filter.mp hx).1
+  have hset : setOf raw = raw := setOf_nodup raw h.locs
+  have hsymsub : ((raw.filter Obj.isSym).map Obj.loc).Nodup := (List.filter_sublist.map Obj.loc).nodup h.locs
+  have hsyms : setOf (raw.filter Obj.isSym) = raw.filter Obj.isSym := setOf_nodup _ hsymsub
+  have hnoc : ∀ x ∈ raw.filter Obj.isSym, childNodes (raw.filter Obj.isSym) x.loc = [] := by
+    intro x hx
+    unfold childNodes
+    rw [List.filter_eq_nil_iff]
+    intro y hy
+    simp [h.flat x hx y hy]
+  have hperm : (raw.filter (fun o => !o.isSym) ++ raw.filter Obj.isSym).Perm raw :=
+    List.perm_append_comm.trans (List.filter_append_perm Obj.isSym raw)
+  have hupd : setUpdate (raw.filter (fun o => !o.isSym)) (raw.filter Obj.isSym)
+      = raw.filter (fun o => !o.isSym) ++ raw.filter Obj.isSym :=
+    setUpdate_fresh _ _ ((hperm.map Obj.loc).nodup_iff.mpr h.locs)
+  -- the order of the pass and the order of the archive pick the same symlink
+  have hxs : ((C28.sortBy Obj.loc (raw.filter Obj.isSym)).reverse).Perm (symsOf raw) :=
+    (List.reverse_perm _).trans (C28.sortBy_perm Obj.loc _)
+  have hstep : ∀ p, stepLoc (symsOf raw) p = stepLoc ((C28.sortBy Obj.loc (raw.filter Obj.isSym)).reverse) p := by
+    intro p
+    unfold stepLoc
+    rw [find?_perm_unique _ _ _ hxs.symm (fun a ha b hb pa pb =>
+      ancestor_sym_unique (symsOf raw) h.norm h.flat
+        (fun a ha b hb e => C28.key_inj_of_nodup Obj.loc raw h.locs a b (hsub a ha) (hsub b hb) e) p a b ha hb pa pb)]
+  have hres : ∀ n p, resolveDir n (symsOf raw) p = resolveDir n ((C28.sortBy Obj.loc (raw.filter Obj.isSym)).reverse) p :=
+    fun n p => resolveDir_congr n _ _ hstep p
+  have hlen : ((C28.sortBy Obj.loc (raw.filter Obj.isSym)).reverse).length = (symsOf raw).length := hxs.length_eq
+  have hpass := passes_spec ((C28.sortBy Obj.loc (raw.filter Obj.isSym)).reverse)
+    (raw.filter (fun o => !o.isSym) ++ raw.filter Obj.isSym)
+    ((C28.sortBy Obj.loc (raw.filter Obj.isSym)).reverse).length
+    (by
+      intro e1 h1 e2 h2 he
+      rw [← hres, ← hres, hlen] at he
+      exact h.inj e1 (hperm.mem_iff.mp h1) e2 (hperm.mem_iff.mp h2) he)
+    (by
+      intro e he
+      rw [← hres, ← hstep, hlen]
+      exact h.depth e (hperm.mem_iff.mp he))
+    (((C28.sortBy Obj.loc (raw.filter Obj.isSym)).reverse).length + 1) 0 _ (by omega)
+    ((hperm.map Obj.loc).nodup_iff.mpr h.locs)
+    (by
+      intro o
+      constructor
+      · intro ho; exact ⟨o, ho, by simp [resolveDir, withLoc_self]⟩
+      · rintro ⟨e, he, rfl⟩; simpa [resolveDir, withLoc_self] using he)
+  refine ⟨_, hpass.1, ?_, ?_⟩
+  · intro o
+    rw [hpass.2 o]
+    constructor
+    · rintro ⟨e, he, rfl⟩
+      exact ⟨e, hperm.mem_iff.mp he, by unfold placeOf; rw [hres, hlen]⟩
+    · rintro ⟨e, he, rfl⟩
+      exact ⟨e, hperm.mem_iff.mpr he, by unfold placeOf; rw [hres, hlen]⟩
+  · unfold convertArchive
+    simp only [hset, hsyms, symLoop_stable _ _ hnoc, setRemove_syms raw h.locs, hupd]
+    generalize relocatePasses _ _ _ = t1 at hpass ⊢
+    have hfreshlocs : ((t1 ++ (addedDirs t1).map newDir).map Obj.loc).Nodup := by
+      rw [List.map_append, List.nodup_append]
+      refine ⟨hpass.1, ?_, ?_⟩
+      · rw [List.map_map]
+        have : (Obj.loc ∘ newDir) = id := by funext p; rfl
+        rw [this, List.map_id]
+        exact nodup_eraseDups _
+      · intro a ha b hb e
+        rw [List.map_map] at hb
+        obtain ⟨p, hp, rfl⟩ := List.mem_map.mp hb
+        have hp' := List.mem_eraseDups.mp hp
+        have := (missingDirs_sound _ t1 p hp').1
+        have e' : a = p := e
+        rw [e'] at ha
+        exact this ha
+    refine ⟨hfreshlocs, ?_⟩
+    rw [show setUpdate t1 (List.map newDir (missingDirs (maxLocLen t1 + 1) t1).eraseDups) = t1 ++ (addedDirs t1).map newDir
+      from setUpdate_fresh _ _ hfreshlocs]
+    rfl
+
+
+/-- everything the relocation theorems state, in one piece -/
+theorem convert_flat_full (raw : List Obj) (h : Relocatable raw) :
+    ∃ (R : List Obj) (added : List Str), convertArchive raw = some R ∧
+      R.Perm (raw.map (placeOf raw) ++ added.map newDir) ∧
+      (R.map Obj.loc).Nodup ∧ added.Nodup ∧
+      (∀ p, p ∈ added ↔ p ∉ (raw.map (placeOf raw)).map Obj.loc ∧ p ≠ ['/'] ∧ p ≠ [] ∧
+        ∃ e ∈ raw, p ∈ ancestors (placeOf raw e).loc) ∧
+      (∀ e ∈ raw, stepLoc (symsOf raw) e.loc = none → e ∈ R) ∧
+      (∀ s ∈ R, s.isSym = true → ∀ o ∈ R, isChild s.loc o.loc = false) := by
+  obtain ⟨t1, hnd, hmem, hnd2, hconv⟩ := convert_flat raw h
+  have hR : (sort3 (t1 ++ (addedDirs t1).map newDir)).Perm (t1 ++ (addedDirs t1).map newDir) := sort3_perm _
+  have hinjP : ∀ a ∈ raw, ∀ b ∈ raw, placeOf raw a = placeOf raw b → a = b := by
+    intro a ha b hb e
+    have := congrArg Obj.loc e
+    unfold placeOf at this
+    rw [withLoc_loc, withLoc_loc] at this
+    exact h.inj a ha b hb this
+  have ht1 : t1.Perm (raw.map (placeOf raw)) := by
+    rw [List.perm_ext_iff_of_nodup (nodup_of_nodup_map _ _ hnd) (nodup_map_on _ raw (nodup_of_nodup_map _ _ h.locs) hinjP)]
+    intro o
+    rw [hmem o, List.mem_map]
+    constructor
+    · rintro ⟨e, he, rfl⟩; exact ⟨e, he, rfl⟩
+    · rintro ⟨e, he, rfl⟩; exact ⟨e, he, rfl⟩
+  have hlocmem : ∀ p, p ∈ t1.map Obj.loc ↔ p ∈ (raw.map (placeOf raw)).map Obj.loc := fun p => (ht1.map Obj.loc).mem_iff
+  -- the symlinks of the result are the symlinks of the archive, where they were
+  have hsymfix : ∀ e ∈ symsOf raw, stepLoc (symsOf raw) e.loc = none := by
+    intro e he
+    unfold stepLoc
+    have : (symsOf raw).find? (fun s => isChild s.loc e.loc) = none := by
+      rw [List.find?_eq_none]
+      intro a ha
+      simp [h.flat a ha e he]
+    rw [this]; rfl
+  have hplace_id : ∀ e, stepLoc (symsOf raw) e.loc = none → placeOf raw e = e := by
+    intro e he
+    unfold placeOf
+    rw [resolveDir_settled _ _ _ he, withLoc_self]
+  -- nothing that was placed lies below a symlink of the archive
+  have hsettled : ∀ o ∈ t1, ∀ s ∈ symsOf raw, isChild s.loc o.loc = false := by
+    intro o ho s hs
+    obtain ⟨e, he, rfl⟩ := (hmem o).mp ho
+    have hd := h.depth e he
+    unfold placeOf
+    rw [withLoc_loc]
+    unfold stepLoc at hd
+    cases hf : (symsOf raw).find? (fun s => isChild s.loc (resolveDir (symsOf raw).length (symsOf raw) e.loc)) with
+    | some x => rw [hf] at hd; cases hd
+    | none =>
+      rw [List.find?_eq_none] at hf
+      simpa using hf s hs
+  refine ⟨_, addedDirs t1, hconv, hR.trans (List.Perm.append_right _ ht1), (hR.map Obj.loc).nodup_iff.mpr hnd2,
+    nodup_eraseDups _, ?_, ?_, ?_⟩
+  · intro p
+    unfold addedDirs
+    rw [List.mem_eraseDups, missingDirs_spec, hlocmem p]
+    constructor
+    · rintro ⟨h0, h1, h2, o, ho, ha⟩
+      obtain ⟨e, he, rfl⟩ := (hmem o).mp ho
+      exact ⟨h0, h1, h2, e, he, ha⟩
+    · rintro ⟨h0, h1, h2, e, he, ha⟩
+      exact ⟨h0, h1, h2, _, (hmem _).mpr ⟨e, he, rfl⟩, ha⟩
+  · intro e he hs
+    apply hR.mem_iff.mpr
+    apply List.mem_append_left
+    exact (hmem e).mpr ⟨e, he, (hplace_id e hs).symm⟩
+  · intro s hs hsym o ho
+    have hs' := List.mem_append.mp (hR.mem_iff.mp hs)
+    have hsF : s ∈ symsOf raw := by
+      rcases hs' with hs' | hs'
+      · obtain ⟨e, he, rfl⟩ := (hmem s).mp hs'
+        unfold placeOf at hsym
+        rw [withLoc_isSym] at hsym
+        have heF : e ∈ symsOf raw := List.mem_filter.mpr ⟨he, hsym⟩
+        rw [hplace_id e (hsymfix e heF)]
+        exact heF
+      · obtain ⟨p, _, rfl⟩ := List.mem_map.mp hs'
+        simp [newDir, Obj.isSym] at hsym
+    rcases List.mem_append.mp (hR.mem_iff.mp ho) with ho | ho
+    · exact hsettled o ho s hsF
+    · obtain ⟨p, hp, rfl⟩ := List.mem_map.mp ho
+      obtain ⟨_, _, _, e1, he1, j, hj⟩ := missingDirs_sound _ t1 p (List.mem_eraseDups.mp hp)
+      cases hc : isChild s.loc (newDir p).loc with
+      | false => rfl
+      | true =>
+        have hpre : (cnPrefix s.loc) <+: e1.loc := by
+          unfold isChild at hc
+          rw [List.isPrefixOf_iff_prefix] at hc
+          have hpp : (newDir p).loc = dirNameN (j + 1) e1.loc := hj
+          rw [hpp] at hc
+          exact hc.trans (dirNameN_prefix _ _)
+        have := hsettled e1 he1 s hsF
+        unfold isChild at this
+        rw [← List.isPrefixOf_iff_prefix] at hpre
+        rw [hpre] at this
+        cases this
+
+
+/-- the executable check of `Spec/C25.lean` establishes the hypotheses -/
+theorem relocatable_of_check (raw : List Obj) (h : relocatableB raw = true) : Relocatable raw := by
+  unfold relocatableB at h
+  simp only [Bool.and_eq_true, decide_eq_true_eq, List.all_eq_true, beq_iff_eq, Bool.not_eq_true',
+    Bool.or_eq_true, Option.isNone_iff_eq_none] at h
+  obtain ⟨⟨⟨⟨h1, h2⟩, h3⟩, h4⟩, h5⟩ := h
+  refine ⟨h1, h2, h3, h4, ?_⟩
+  intro a ha b hb e
+  rcases h5 a ha b hb with h | h
+  · exact absurd e (by simpa using h)
+  · exact h
+
+
+/-! ## normalised absolute locations satisfy `PathOK` and `LocNorm` -/
+
+/-- a normalised absolute location: `/` followed by non-empty components without slash other than `.` and `..` -/
+def GoodComp (c : Str) : Prop := c ≠ [] ∧ '/' ∉ c ∧ c ≠ ['.'] ∧ c ≠ ['.', '.']
+
+theorem splitOn_joinWith (comps : List Str) (hne : comps ≠ []) (h : ∀ c ∈ comps, '/' ∉ c) :
+    splitOn '/' (joinWith '/' comps) = comps := by
+  induction comps with
+  | nil => exact absurd rfl hne
+  | cons x r ih =>
+    cases r with
+    | nil => simp only [joinWith]; exact splitOn_nosep _ _ (h x (by simp))
+    | cons y r' =>
+      have e : joinWith '/' (x :: y :: r') = x ++ '/' :: joinWith '/' (y :: r') := rfl
+      rw [e, splitOn_append_sep, splitOn_nosep _ _ (h x (by simp)), ih (by simp) (fun c hc => h c (by simp [hc]))]
+      rfl
+
+theorem joinWith_snoc (comps : List Str) (hne : comps ≠ []) (h : ∀ c ∈ comps, c ≠ [] ∧ '/' ∉ c) :
+    ∃ a c, joinWith '/' comps = a ++ [c] ∧ c ≠ '/' := by
+  induction comps with
+  | nil => exact absurd rfl hne
+  | cons x r ih =>
+    cases r with
+    | nil =>
+      obtain ⟨hx, hs⟩ := h x (by simp)
+      refine ⟨x.dropLast, x.getLast hx, by simp [joinWith, List.dropLast_concat_getLast], ?_⟩
+      intro e; exact hs (e ▸ List.getLast_mem hx)
+    | cons y r' =>
+      obtain ⟨a, c, ha, hc⟩ := ih (by simp) (fun c hc => h c (by simp [hc]))
+      refine ⟨x ++ '/' :: a, c, ?_, hc⟩
+      have e : joinWith '/' (x :: y :: r') = x ++ '/' :: joinWith '/' (y :: r') := rfl
+      rw [e, ha]; simp
+
+theorem joinWith_head (comps : List Str) (hne : comps ≠ []) (h : ∀ c ∈ comps, c ≠ [] ∧ '/' ∉ c) :
+    ∃ c rest, joinWith '/' comps = c :: rest ∧ c ≠ '/' := by
+  cases comps with
+  | nil => exact absurd rfl hne
+  | cons x r =>
+    obtain ⟨hx, hs⟩ := h x (by simp)
+    cases x with
+    | nil => exact absurd rfl hx
+    | cons c cs =>
+      refine ⟨c, (joinWith '/' (cs :: r)), joinWith_cons_cons _ _ _ _, ?_⟩
+      intro e; exact hs (by simp [e])
+
+theorem normFold_good (initial : Nat) (acc comps : List Str) (h : ∀ c ∈ comps, GoodComp c) :
+    comps.foldl (fun (acc : List Str) comp =>
+      if comp = [] ∨ comp = ['.'] then acc
+      else if comp ≠ ['.', '.'] ∨ (initial = 0 ∧ acc = []) ∨ acc.getLast? = some ['.', '.'] then acc ++ [comp]
+      else acc.dropLast) acc = acc ++ comps := by
+  induction comps generalizing acc with
+  | nil => simp
+  | cons c r ih =>
+    obtain ⟨h1, _, h3, h4⟩ := h c (by simp)
+    simp only [List.foldl_cons]
+    rw [if_neg (by simp [h1, h3]), if_pos (Or.inl h4), ih _ (fun c hc => h c (by simp [hc]))]
+    simp
+
+theorem normpath_dot_slash (comps : List Str) (hne : comps ≠ []) (h : ∀ c ∈ comps, GoodComp c) :
+    normpath ('/' :: '.' :: '/' :: joinWith '/' comps) = '/' :: joinWith '/' comps := by
+  have hs : splitOn '/' ('/' :: '.' :: '/' :: joinWith '/' comps) = [] :: ['.'] :: comps := by
+    have e : ('/' :: '.' :: '/' :: joinWith '/' comps) = [] ++ '/' :: (['.'] ++ '/' :: joinWith '/' comps) := rfl
+    rw [e, splitOn_append_sep, splitOn_append_sep, splitOn_joinWith comps hne (fun c hc => (h c hc).2.1)]
+    rfl
+  have hinit : (if ('/' :: '.' :: '/' :: joinWith '/' comps).head? = some '/' then
+      (if (List.drop 1 ('/' :: '.' :: '/' :: joinWith '/' comps)).head? = some '/' ∧
+          (List.drop 2 ('/' :: '.' :: '/' :: joinWith '/' comps)).head? ≠ some '/' then 2 else 1) else 0) = 1 := by
+    simp
+  unfold normpath
+  simp only [hs, hinit]
+  have hf := normFold_good 1 [] comps h
+  simp only [List.nil_append] at hf
+  have hfold : List.foldl (fun (acc : List Str) comp =>
+      if comp = [] ∨ comp = ['.'] then acc
+      else if comp ≠ ['.', '.'] ∨ (1 = 0 ∧ acc = []) ∨ acc.getLast? = some ['.', '.'] then acc ++ [comp]
+      else acc.dropLast) [] ([] :: ['.'] :: comps) = comps := by
+    simp only [List.foldl_cons, true_or, or_true, if_true]
+    exact hf
+  rw [hfold]
+  simp
+
+theorem pathOK_of_normal (comps : List Str) (hne : comps ≠ []) (h : ∀ c ∈ comps, GoodComp c) :
+    PathOK ('/' :: joinWith '/' comps) := by
+  have hg : ∀ c ∈ comps, c ≠ [] ∧ '/' ∉ c := fun c hc => ⟨(h c hc).1, (h c hc).2.1⟩
+  obtain ⟨c0, rest, hj, hc0⟩ := joinWith_head comps hne hg
+  obtain ⟨a, cl, hl, hcl⟩ := joinWith_snoc comps hne hg
+  have hrel : relName ('/' :: joinWith '/' comps) = '.' :: '/' :: joinWith '/' comps := by
+    unfold relName lstripSlash
+    rw [hj]
+    simp [List.dropWhile, hc0]
+  have hstrip : stripSlash ('.' :: '/' :: joinWith '/' comps) = '.' :: '/' :: joinWith '/' comps := by
+    unfold stripSlash
+    have h1 : List.dropWhile (· = '/') ('.' :: '/' :: joinWith '/' comps) = '.' :: '/' :: joinWith '/' comps := by
+      simp [List.dropWhile]
+    rw [h1, hl]
+    have : ('.' :: '/' :: (a ++ [cl])).reverse = cl :: ('.' :: '/' :: a).reverse := by simp
+    rw [this]
+    simp [List.dropWhile, hcl]
+  refine ⟨?_, ?_, ?_⟩
+  · unfold absLoc
+    rw [hrel, hstrip, normpath_dot_slash comps hne h]
+  · unfold absLink
+    rw [hrel]
+    have hh : ¬ (('.' :: '/' :: joinWith '/' comps).head? = some '/') := by simp
+    rw [if_neg hh, normpath_dot_slash comps hne h]
+  · rw [hj]; simp
+
+
+theorem normpath_normal (comps : List Str) (hne : comps ≠ []) (h : ∀ c ∈ comps, GoodComp c) :
+    normpath ('/' :: joinWith '/' comps) = '/' :: joinWith '/' comps := by
+  have hg : ∀ c ∈ comps, c ≠ [] ∧ '/' ∉ c := fun c hc => ⟨(h c hc).1, (h c hc).2.1⟩
+  obtain ⟨c0, rest, hj, hc0⟩ := joinWith_head comps hne hg
+  have hs : splitOn '/' ('/' :: joinWith '/' comps) = [] :: comps := by
+    have e : ('/' :: joinWith '/' comps) = [] ++ '/' :: joinWith '/' comps := rfl
+    rw [e, splitOn_append_sep, splitOn_joinWith comps hne (fun c hc => (h c hc).2.1)]
+    rfl
+  have hinit : (if ('/' :: joinWith '/' comps).head? = some '/' then
+      (if (List.drop 1 ('/' :: joinWith '/' comps)).head? = some '/' ∧
+          (List.drop 2 ('/' :: joinWith '/' comps)).head? ≠ some '/' then 2 else 1) else 0) = 1 := by
+    rw [hj]; simp [hc0]
+  unfold normpath
+  simp only [hs, hinit]
+  have hf := normFold_good 1 [] comps h
+  simp only [List.nil_append] at hf
+  have hfold : List.foldl (fun (acc : List Str) comp =>
+      if comp = [] ∨ comp = ['.'] then acc
+      else if comp ≠ ['.', '.'] ∨ (1 = 0 ∧ acc = []) ∨ acc.getLast? = some ['.', '.'] then acc ++ [comp]
+      else acc.dropLast) [] ([] :: comps) = comps := by
+    simp only [List.foldl_cons, true_or, if_true]
+    exact hf
+  rw [hfold]
+  simp
+
+/-- every normalised absolute location satisfies the hypothesis `LocNorm` of the relocation theorems -/
+theorem locNorm_of_normal (comps : List Str) (hne : comps ≠ []) (h : ∀ c ∈ comps, GoodComp c) :
+    LocNorm ('/' :: joinWith '/' comps) := by
+  have hg : ∀ c ∈ comps, c ≠ [] ∧ '/' ∉ c := fun c hc => ⟨(h c hc).1, (h c hc).2.1⟩
+  obtain ⟨a, cl, hl, hcl⟩ := joinWith_snoc comps hne hg
+  unfold LocNorm cnPrefix
+  rw [normpath_normal comps hne h, hl]
+  have : ('/' :: (a ++ [cl])).reverse = cl :: ('/' :: a).reverse := by simp
+  rw [this]
+  simp [List.dropWhile, hcl]
+
 
 end Pkgcore.C25
